@@ -34,6 +34,7 @@ fn main() {
     if args[1] == "names" {
         // nvh names: show what the name generators produce (development aid)
         println!("han fragment names: {:?}", nvh::gen::han_fragment_names());
+        println!("prelude samples accepted (format, sample, enum, lexical): {:?}", nvh::prelude::self_check());
         use proptest::strategy::{Strategy, ValueTree};
         let mut runner = proptest::test_runner::TestRunner::deterministic();
         for fi in 0..3usize {
